@@ -61,3 +61,39 @@ package blocklist
 //@   ensures !old(has(b.m, canon(key))) ==> (forall k string :: {has(b.m, k)} has(b.m, k) == old(has(b.m, k)))
 //@   ensures !old(has(b.m, canon(key))) && result ==> isWild(canon(key)) && old(has(b.wild, canon(key)[2:len(canon(key))])) && !has(b.wild, canon(key)[2:len(canon(key))])
 //@   ensures !old(has(b.m, canon(key))) ==> (forall k string :: {has(b.wild, k)} k != canon(key)[2:len(canon(key))] ==> has(b.wild, k) == old(has(b.wild, k)))
+//@
+//@ # ---- C18: a blocked name is answered locally (null route / empty NOERROR with SOA), authoritatively, and the
+//@ # chain is cancelled: the query never reaches cache or upstream; an unblocked name is passed on untouched
+//@ func (*BlockList).ServeDNS
+//@   requires blWF(b) && ch != nil
+//@   assume at after call (*middleware.Chain).Materialize#1: result1 != nil ==> len(result1.Question) > 0
+//@   assume at after call (*middleware.Chain).Materialize#1: blWF(b)
+//@   assert at call (*middleware.Chain).Next#1: len(b.m) == 0 && len(b.wild) == 0
+//@   assert at call (*middleware.Chain).Next#2: !blockedName(b, canon(q.Name))
+//@   assert at call (middleware.ResponseWriter).WriteMsg#1: blockedName(b, canon(q.Name)) && arg1 != nil && arg1.Authoritative && calls("(*middleware.Chain).Next") == 0
+//@   assert at call (middleware.ResponseWriter).WriteMsg#1: q.Qtype == dns.TypeA ==> len(arg1.Answer) >= 1 && dyntype(arg1.Answer[len(arg1.Answer)-1], *dns.A) && as(arg1.Answer[len(arg1.Answer)-1], *dns.A).Hdr.Name == q.Name && as(arg1.Answer[len(arg1.Answer)-1], *dns.A).Hdr.Rrtype == dns.TypeA && sameslice(as(arg1.Answer[len(arg1.Answer)-1], *dns.A).A, b.nullroute)
+//@   assert at call (middleware.ResponseWriter).WriteMsg#1: q.Qtype == dns.TypeAAAA ==> len(arg1.Answer) >= 1 && dyntype(arg1.Answer[len(arg1.Answer)-1], *dns.AAAA) && as(arg1.Answer[len(arg1.Answer)-1], *dns.AAAA).Hdr.Name == q.Name && sameslice(as(arg1.Answer[len(arg1.Answer)-1], *dns.AAAA).AAAA, b.null6route)
+//@   assert at call (middleware.ResponseWriter).WriteMsg#1: q.Qtype != dns.TypeA && q.Qtype != dns.TypeAAAA ==> len(arg1.Ns) >= 1 && dyntype(arg1.Ns[len(arg1.Ns)-1], *dns.SOA)
+//@   ensures calls("(middleware.ResponseWriter).WriteMsg") <= 1 && calls("(*middleware.Chain).Next") <= 1
+//@   ensures calls("(middleware.ResponseWriter).WriteMsg") == 1 ==> calls("(*middleware.Chain).Cancel") == 1 && calls("(*middleware.Chain).Next") == 0
+//@   ensures calls("(*middleware.Chain).Next") == 1 ==> calls("(middleware.ResponseWriter).WriteMsg") == 0 && calls("(*middleware.Chain).Cancel") == 0
+//@
+//@ # ---- C18: persistence protocol: a snapshot older than the last one written touches no file; the list file is
+//@ # replaced only by renaming a temp file that was written, synced and closed; the recorded version only grows;
+//@ # every return that reported no failure has recorded a version >= the snapshot's
+//@ func (*BlockList).snapshotLocked
+//@   requires b != nil
+//@   nosafety ovf
+//@   assert at return: result.version == old(b.version) + 1 && b.version == old(b.version) + 1
+//@
+//@ func (*BlockList).persist
+//@   requires b != nil && b.cfg != nil
+//@   nosafety all
+//@   assert at call os.CreateTemp#1: s.version == 0 || s.version > old(b.lastPersisted)
+//@   assert at call os.Rename#1: calls("(*os.File).Sync") == 1 && calls("(*os.File).Close") == 1 && calls("os.Rename") == 0 && arg0 == tmpName && arg1 == path
+//@   assert at store blocklist.BlockList.lastPersisted#1: calls("os.Rename") == 1
+//@   assert at store blocklist.BlockList.lastPersisted#1: value == s.version
+//@   assert at store blocklist.BlockList.lastPersisted#1: s.version == 0 || s.version > old(b.lastPersisted)
+//@   assert at return: calls("(*middleware/blocklist.BlockList).persist$2") == 0 && calls("github.com/semihalev/zlog/v2.Warn") == 0 ==> b.lastPersisted >= s.version
+//@   assert at return: calls("os.Rename") <= 1 && calls("os.CreateTemp") <= 1
+//@   assert at return#1: calls("os.CreateTemp") == 0 && calls("os.Rename") == 0
